@@ -142,6 +142,35 @@ def run(ctx):
             it.disagree(meta, i[:300], m[:300])
     streams.append(it)
 
+    # calls that leave the encoding to the package default: the default is latin-1 (every byte 0x00-0xFF is a character)
+    dflt = Stream("default-encoding")
+    for _ in range(3000 if ctx.thorough else 400):
+        recs = codecio.canonical_records(r, "latin-1")
+        seq = r.randrange(0, 65)
+        case = {"records": codecio.records_wire(recs), "seq": seq, "encoding": "(default)"}
+        dflt.case(case, nontrivial=codecio.is_rich(recs))
+        a = codecio.ok_or_err(codec.encode_message, seq, recs)
+        b = codecio.ok_or_err(codec.encode_message, seq, recs, "latin-1")
+        if a != b:
+            dflt.fail(dict(case, default=repr(a)[:200], latin1=repr(b)[:200]),
+                      "encode_message without an encoding argument differs from encode_message(..., 'latin-1')", "default/encode")
+            continue
+        if a[0]:
+            exp = [[int_as_text(f) for f in rec] for rec in recs]
+            for how, got in (("decode_message", codecio.ok_or_err(lambda: codec.decode_message(a[1])[1])),
+                             ("decode", codecio.ok_or_err(codec.decode, a[1])),
+                             ("decode(encoding=...)", codecio.ok_or_err(lambda: codec.decode(a[1], encoding="latin-1")))):
+                if got != (True, exp):
+                    dflt.fail(dict(case, message=hexb(a[1]), got=repr(got)[:200]), "%s with the default encoding does not return the records" % how,
+                              "default/decode")
+                    break
+    # every byte is text under the default
+    allb = bytes(x for x in range(256) if x not in (13, 124, 92, 94))
+    got = codecio.ok_or_err(codec.decode_record, allb)
+    if got != (True, [allb.decode("latin-1")]):
+        dflt.fail({"record": hexb(allb)}, "decode_record without an encoding argument does not read every byte as the latin-1 character", "default/all-bytes")
+    streams.append(dflt)
+
     x = Stream("exploratory-noncanonical", in_domain=False)
     lines, impls, metas = [], [], []
     weird = [[["a", None]], [[None, None]], [[["a", "b"]]], [b"\xff\xfe", "x"], [["€"]], [[["x"], ["y", None]]],
